@@ -935,10 +935,8 @@ let rec t_set k v = function
 
 (** val t_del : bytes -> table -> table **)
 
-let rec t_del k = function
-| [] -> []
-| p :: r ->
-  let (k', v') = p in if bytes_eqb k k' then r else (k', v') :: (t_del k r)
+let t_del k t =
+  filter (fun kv -> negb (bytes_eqb k (fst kv))) t
 
 (** val t_values : table -> service list **)
 
@@ -985,6 +983,12 @@ type out =
 | OResolve of bytes
 
 type dstate = { remote : table; local : table }
+
+(** val hello_of : service -> service **)
+
+let hello_of s =
+  { s_epr = s.s_epr; s_types = s.s_types; s_scopes = s.s_scopes; s_xaddrs =
+    s.s_xaddrs; s_mdv = (Zpos XH); s_iid = s.s_iid }
 
 (** val with_iid : z -> service -> service **)
 
@@ -1102,7 +1106,7 @@ let step m fixed split cap n0 = function
   let s = { s_epr = epr; s_types = types; s_scopes = scopes; s_xaddrs =
     xaddrs; s_mdv = mdv; s_iid = iid }
   in
-  let os = (OHello s) :: [] in
+  let os = (OHello (hello_of s)) :: [] in
   ({ disc = { remote = n0.disc.remote; local = (t_set epr s n0.disc.local) };
   kn_ids = (send_all cap n0.kn_ids (length n0.sent) os); sent =
   (app n0.sent os) }, os)
